@@ -263,7 +263,8 @@ class SObj(Sym):
     def __init__(self, name: str, kinds: Any, origin: str = "input"):
         self.uid = next(_uid)
         self.name = name
-        self.kinds: FrozenSet[str] = frozenset(kinds)
+        self.twins: List[Any] = []       # objects known to have the same runtime class (copies)
+        self._kinds: FrozenSet[str] = frozenset(kinds)
         self.attrs: Dict[str, Any] = {}
         self.origin = origin             # 'input' (borrowed), 'new', 'opaque'
         self.known: Any = _NOVAL         # known concrete value (after an == decision)
@@ -271,6 +272,20 @@ class SObj(Sym):
         self.in_sets: Dict[FrozenSet[Any], bool] = {}
         self.elem_of: Any = None         # (collection SObj, view kinds, index) when this is a list element
         self.meta: Dict[str, Any] = {}
+
+    @property
+    def kinds(self) -> FrozenSet[str]:
+        return self._kinds
+
+    @kinds.setter
+    def kinds(self, ks: Any) -> None:
+        ks = frozenset(ks)
+        self._kinds = ks
+        for t in self.twins:
+            if not (t._kinds <= ks):
+                narrowed = t._kinds & ks
+                if narrowed:
+                    t.kinds = narrowed
 
     def __repr__(self) -> str:
         ks = ",".join(sorted(self.kinds)) if len(self.kinds) <= 4 else f"{len(self.kinds)} kinds"
